@@ -67,12 +67,19 @@ def template(tpl, x0, parallel=False):
         cfg = {'_parallel': True} if parallel else {}
         procs['p'] = CompProc(cfg)
         topo['p'] = {'v': ('v',)}
+    nested = NEST2[0] and tpl == 'T2'
     for s in TPL_STEPS[tpl]:
         scfg = {'sname': s, 'up': UPSTREAM.get((tpl, s))}
         if parallel:
             scfg['_parallel'] = True
         # (the deriver of T3 is written the legacy way)
-        steps[s] = LegacyCnt(scfg) if (tpl == 'T3' and s == 'd') else CntStep(scfg)
+        step = LegacyCnt(scfg) if (tpl == 'T3' and s == 'd') else CntStep(scfg)
+        if nested:
+            steps.setdefault(INNER, {})[s] = step
+            topo.setdefault(INNER, {})[s] = {'c': ('..', 'c')}
+            flow.setdefault(INNER, {})[s] = list(TPL_FLOW[s])
+            continue
+        steps[s] = step
         topo[s] = {'c': ('c',)}
         if s in TPL_FLOW:
             flow[s] = list(TPL_FLOW[s])
@@ -178,6 +185,16 @@ GLOB = {'*': {'v': {'x': dict(X_SCHEMA)}}}
 # branch whose last child has gone then has neither children nor a sub-schema.
 GLOB_BARE = {'*': {}}
 BARE = [False]
+# nested mode (a history whose first operation carries 'nest2': True): the flow
+# steps s1 <- s2 of template T2 live one level down, in a sub-store 'inner' of the
+# compartment, with a nested flow and a topology that reaches back with '..'.
+# Abstractly nothing changes: the projections drop the 'inner' path element.
+NEST2 = [False]
+INNER = 'inner'
+
+
+def flat(path):
+    return [k for k in path if k != INNER]
 
 
 def glob():
@@ -283,6 +300,8 @@ class Observer(Process):
 
 def tpl_of(node):
     names = set(node.inner.keys())
+    if INNER in names:
+        names = (names - {INNER}) | set(node.inner[INNER].inner.keys())
     has_p = 'p' in names
     steps = sorted(n for n in ('s1', 's2', 'd', 'e') if n in names)
     if not has_p and not steps:
@@ -299,7 +318,7 @@ def proc_leaves(d, prefix=()):
         for k, v in d.items():
             out += proc_leaves(v, prefix + (k,))
     elif isinstance(d, Process):
-        out.append(list(prefix))
+        out.append(flat(prefix))
     return out
 
 
@@ -313,9 +332,9 @@ def flow_leaves(d, prefix=()):
             if isinstance(x, tuple) and all(isinstance(y, str) for y in x):
                 return list(x)
             return ['BAD', type(x).__name__]
-        out.append([list(prefix), sorted(dep(x) for x in d)])
+        out.append([flat(prefix), sorted(dep(x) for x in d)])
     else:
-        out.append([list(prefix), [['BAD', type(d).__name__]]])
+        out.append([flat(prefix), [['BAD', type(d).__name__]]])
     return out
 
 
@@ -324,7 +343,7 @@ def topo_leaves(d, prefix=()):
     out = []
     if isinstance(d, dict):
         if d and all(isinstance(v, tuple) for v in d.values()):
-            return [list(prefix)]
+            return [flat(prefix)]
         for k, v in d.items():
             out += topo_leaves(v, prefix + (k,))
     return out
@@ -354,7 +373,8 @@ def project(eng, prev_ids):
             # identity: the compartment node and every node below it
             # (the sub-variable 'w' that the watcher declares for the children of
             #  the pool is created when a compartment arrives there: not compared)
-            sub = sorted((tuple(p), id(n)) for p, n in node.depth() if tuple(p) != ('w',))
+            sub = sorted((tuple(flat(p)), id(n)) for p, n in node.depth()
+                         if tuple(p) != ('w',) and tuple(p) != (INNER,))
             ids[(b, k)] = sub
             org = 'new'
             for loc, old in prev_ids.items():
@@ -369,16 +389,16 @@ def project(eng, prev_ids):
     for n in g._graph.nodes:
         if n[0] not in ('agents', 'pool'):
             continue
-        deps.append([list(n), sorted(list(p) for p in g._graph.predecessors(n))])
+        deps.append([flat(n), sorted(flat(p) for p in g._graph.predecessors(n))])
     leaves = {}
     lnode = eng.state.inner.get('leaves')
     if lnode is not None:
         leaves = {k: (n.value if isinstance(n.value, int) else -999) for k, n in lnode.inner.items()}
     obs = {
         'tree': tree, 'origin': origin, 'leaves': leaves,
-        'eprocs': comp_paths([list(p) for p in eng.process_paths]),
-        'esteps': comp_paths([list(p) for p in eng._step_paths]),
-        'eseq': [list(p) for p in g._sequential_steps],
+        'eprocs': comp_paths([flat(p) for p in eng.process_paths]),
+        'esteps': comp_paths([flat(p) for p in eng._step_paths]),
+        'eseq': [flat(p) for p in g._sequential_steps],
         'deps': sorted(deps),
         'pubP': comp_paths(proc_leaves(eng.processes)),
         'pubS': comp_paths(proc_leaves(eng.steps)),
@@ -396,7 +416,7 @@ def id_paths(eng):
     out = {}
     for path, node in eng.state.depth():
         if isinstance(node.value, Process):
-            out[id(node.value)] = list(path)
+            out[id(node.value)] = flat(path)
     return out
 
 
@@ -421,6 +441,7 @@ def run_history(ops, initial=(), parallel=False, via_composite=False):
     global LOG
     LOG = []
     BARE[0] = bool(ops and ops[0].get('bare'))
+    NEST2[0] = bool(ops and ops[0].get('nest2'))
     director = Director({'script': list(ops)})
     director.par = parallel
     sdirector = StepDirector({'script': list(ops)})
